@@ -193,7 +193,7 @@ func trunc(b []byte, n int) []byte {
 func TestHistoriesGenerated(t *testing.T) {
 	harness.Check(t, "histories-generated", 4000, 150000, func(rt *rapid.T) {
 		v := rapid.SampledFrom(px.KeyVersions).Draw(rt, "version")
-		c := progs.Draw(rt, v, progs.Options(v), 1, 4)
+		c := progs.Draw(rt, v, progs.StructuralOptions(v), 1, 4)
 		pol := progs.Policy(rt, phpgen.PolicyFull, nil)
 		pol.Shebang = rapid.IntRange(0, 3).Draw(rt, "shebang") == 0
 		lay := c.G.Render(c.Root, pol)
@@ -253,7 +253,7 @@ func TestHistoriesLongLexemes(t *testing.T) {
 func TestTreesAreIndependent(t *testing.T) {
 	harness.Check(t, "independent-trees", 4000, 150000, func(rt *rapid.T) {
 		v := rapid.SampledFrom(px.KeyVersions).Draw(rt, "version")
-		c := progs.Draw(rt, v, progs.Options(v), 1, 4)
+		c := progs.Draw(rt, v, progs.StructuralOptions(v), 1, 4)
 		src := c.G.Render(c.Root, progs.Policy(rt, phpgen.PolicySpace, nil)).Src
 		a := px.Parse(src, v, true)
 		b := px.Parse(append([]byte{}, src...), v, true)
